@@ -368,6 +368,23 @@ def r_keys(prog, R):
                         cn = x[2] if x else cn
                     if cn.get("callee") in BIN_GET:
                         binvars.add(nocast(el["e"]["l"])["n"])
+        # the length the caller is told is the length the record API reported for that binary value, not a string length of the copy
+        lenvars = {}
+        for b, i, c in f.calls():
+            if c.get("callee") in BIN_GET and c.get("args"):
+                la = strip(c["args"][-1])
+                if la is not None and la.get("k") == "un" and la.get("op") == "&" and strip(la["e"]).get("k") == "var":
+                    lenvars[strip(la["e"])["n"]] = c["callee"]
+        if binvars and lenvars:
+            for b, i, el in f.elements():
+                if el["k"] == "asg" and el["e"]["op"] == "=" and strip(el["e"]["l"]).get("k") == "mem" and strip(el["e"]["l"])["f"] == "length":
+                    k = "fn=%s %s is the length reported by the record API" % (f.name, render(strip(el["e"]["l"])))
+                    rhs = nocast(el["e"].get("r"))
+                    if rhs is not None and rhs.get("k") == "var" and rhs["n"] in lenvars:
+                        r.ok(k, f.loc(el))
+                    else:
+                        r.viol(k, f.name, f.loc(el), "%s = %s: the value is binary (it came from %s, which also reported its length); a length computed from the copy stops at the first 0x00 octet and "
+                               "differs from what the record API reports" % (render(strip(el["e"]["l"])), render(el["e"].get("r")), sorted(lenvars.values())[0]))
         for v in sorted(binvars):
             nb += 1
             bad = None
